@@ -381,19 +381,23 @@ def _split_items(text, mask, lo, hi):
     return items
 
 
-def _ret_elim_block(text, lo, hi, top, done, val, fnq):
+def _ret_elim_block(text, lo, hi, top, done, val, fnq, kind='return'):
     """contents text[lo:hi] of a block -> new contents (string)"""
     mask = rs.code_mask(text)
     items = _split_items(text, mask, lo, hi)
     out = []
+    key_re = RET_RE if kind == 'return' else CONT_RE
     for n, (st, en) in enumerate(items):
         it = text[st:en]
-        if not _has_code(text, mask, RET_RE, st, en):
-            out.append(it)
+        if not _has_code(text, mask, key_re, st, en) or (kind == 'continue' and re.match(r"^(for\b|while\b|loop\b|'\w+\s*:)", it)):
+            out.append(it)       # (a nested loop keeps its own `continue`s: they are treated when its turn comes)
             continue
-        m = re.match(r'^return\b\s*(.*?);\s*$', it, re.S)
+        m = re.match(r'^return\b\s*(.*?);\s*$', it, re.S) if kind == 'return' else None
+        mc = re.match(r'^continue\s*;\s*$', it) if kind == 'continue' else None
         if m and mask[st]:
             new_it = '%s = %s; %s = true;' % (val, m.group(1).strip() or '()', done)
+        elif mc and mask[st]:
+            new_it = '%s = true;' % done
         elif re.match(r'^if\b', it):
             # an if / else chain: every block of the chain is treated in turn (not top: unit-valued)
             pieces = []
@@ -416,7 +420,7 @@ def _ret_elim_block(text, lo, hi, top, done, val, fnq):
                     break
                 bc = rs.match_close(text, mask, b)
                 pieces.append(text[pos:b + 1])
-                pieces.append(_ret_elim_block(text, b + 1, bc, False, done, val, fnq))
+                pieces.append(_ret_elim_block(text, b + 1, bc, False, done, val, fnq, kind))
                 pieces.append('}')
                 pos = bc + 1
                 nx = _skip_ws(text, mask, pos)
@@ -425,11 +429,11 @@ def _ret_elim_block(text, lo, hi, top, done, val, fnq):
             pieces.append(text[pos:en])
             new_it = ''.join(pieces)
         else:
-            raise GenError('%s: R17: `return` inside a closure body in a place other than an if-chain or a plain statement' % fnq)
+            raise GenError('%s: R17/R12b: `%s` in a place other than an if-chain or a plain statement' % (fnq, kind))
         out.append(new_it)
         rest_lo = en
         if n + 1 < len(items):
-            rest = _ret_elim_block(text, items[n + 1][0], hi, top, done, val, fnq)
+            rest = _ret_elim_block(text, items[n + 1][0], hi, top, done, val, fnq, kind)
             if top:
                 out.append('if %s { %s } else { %s }' % (done, val, rest))
             else:
@@ -466,6 +470,42 @@ def return_elim(text, log, fnq):
     return text
 
 
+def continue_flag_elim(text, log, fnq):
+    """R12b: a `continue` of a for-loop that R12 could not turn into an else-branch (it is not in tail position) is
+    expressed with a flag: `continue;` becomes `skip = true;` and whatever follows a statement that may have
+    continued runs under `if !skip { .. }`.  Same control flow."""
+    cnt = 0
+    guard = 0
+    while guard < 50:
+        guard += 1
+        mask = rs.code_mask(text)
+        target = None
+        for mt in CONT_RE.finditer(text):
+            if not mask[mt.start()]:
+                continue
+            bb = _enclosing_open(text, mask, mt.start())
+            while bb >= 0:
+                hs, h = _block_header(text, mask, bb)
+                hn = h.strip()
+                if re.match(r"^('\w+\s*:\s*)?for\b", hn):
+                    target = bb
+                    break
+                if re.match(r"^('\w+\s*:\s*)?(while|loop)\b", hn):
+                    break
+                bb = _enclosing_open(text, mask, bb)
+            if target is not None:
+                break
+        if target is None:
+            break
+        cnt += 1
+        bc = rs.match_close(text, mask, target)
+        flag = 'vx_skip%d' % cnt
+        body = _ret_elim_block(text, target + 1, bc, False, flag, None, fnq, 'continue')
+        text = text[:target + 1] + ' let mut %s: bool = false;\n%s\n' % (flag, body) + text[bc:]
+        log.append({'fn': fnq, 'rule': 'R12b', 'from': 'continue (not in tail position)', 'to': 'flag %s' % flag, 'count': 1})
+    return text
+
+
 def clause_lines(out, clauses, fnq, kind, indent, default_props, clause_index, loop=None):
     for c in clauses:
         cid = '%s.%s' % (fnq, c.id) if loop is None else '%s.loop%d.%s' % (fnq, loop, c.id)
@@ -499,6 +539,7 @@ def gen_fn(out, unit, f, sf, meta, probe):
     whole = apply_rewrites(whole, f.rewrites, unit.rewrites, meta['rewrites'], f.qual)
     whole = return_elim(whole, meta['rewrites'], f.qual)
     whole = continue_elim(whole, meta['rewrites'], f.qual)
+    whole = continue_flag_elim(whole, meta['rewrites'], f.qual)
     if bopen is not None:
         wmask = rs.code_mask(whole)
         pd0 = 0
